@@ -123,8 +123,9 @@ def run(ctx: Ctx):
     cursor_rules(ctx, "R08.3")
     # ---------------------------------------------------------------- R08.4
     backs = [w for w in own_nodes(sched) if isinstance(w, ast.While) and "self.currentSlotIdx > lowerLimit" in norm(w.test)]
-    if len(backs) < 4:
-        raise AnchorMissing(f"backward start adjustment loops: {len(backs)} found, expected 4")
+    kinds_ = {("res" if "_isResourceAvailable" in norm(w.test) else "cal" if "isWorkingTime" in norm(w.test) else "?") for w in backs}
+    if len(backs) < 2 or not {"res", "cal"} <= kinds_:
+        raise AnchorMissing(f"backward start adjustment loops: {len(backs)} found ({sorted(kinds_)}); one per calendar kind expected at least")
     for w in backs:
         t = norm(w.test)
         step_ok = len(w.body) == 1 and isinstance(w.body[0], ast.AugAssign) and isinstance(w.body[0].op, ast.Sub) \
@@ -134,7 +135,23 @@ def run(ctx: Ctx):
                "backs up one slot at a time, only over slots in which nothing can work, never below the project start" if step_ok and pred_ok else
                "the backward start adjustment skips slots that could be worked", key=key_of("R08.4", sched, None, t[:60]))
     # which predicate: resource calendar for allocated effort tasks
-    for i in [n for n in own_nodes(sched) if isinstance(n, ast.If) and norm(n.test) == "effort > 0 and allocations"]:
+    from ..order import nearest_resolver as _nres
+
+    def _selects_allocated(i):
+        """the test is `effort > 0 and allocations`, in place or through a flag defined as that (possibly under bool())"""
+        t_ = i.test
+        for _ in range(3):
+            if isinstance(t_, ast.Call) and isinstance(t_.func, ast.Name) and t_.func.id == "bool" and len(t_.args) == 1:
+                t_ = t_.args[0]
+            elif isinstance(t_, ast.Name):
+                ds = _nres(sched.node, i)(t_)
+                if len(ds) != 1:
+                    return False
+                t_ = ds[0]
+            else:
+                break
+        return norm(t_) == "effort > 0 and allocations"
+    for i in [n for n in own_nodes(sched) if isinstance(n, ast.If) and _selects_allocated(n)]:
         a = any("_isResourceAvailable" in norm(x.test) for x in i.body if isinstance(x, ast.While))
         b = any("isWorkingTime" in norm(x.test) for x in i.orelse if isinstance(x, ast.While))
         ctx.ob("R08.4", f"{sched.qual}: calendar used for the backward start", (sched, i), a and b,
@@ -272,4 +289,4 @@ def run(ctx: Ctx):
                            "the backward pass then treats one as having the other's successors / deadline")
     ctx.floor("R08.1", 2)
     ctx.floor("R08.3", 7)
-    ctx.floor("R08.4", 4)
+    ctx.floor("R08.4", 3)      # one loop per calendar kind and the selecting test
